@@ -619,15 +619,18 @@ fn main() {
                 run_case(&c, &mut out);
             }
         }
-        "oracle" => oracle_main(seed, n, &tier, &mut out),
-        "oracle-replay" => {
+        "oracle" => oracle_main(seed, n, &tier, &mut out, None),
+        "oracle-c04" => oracle_main(seed, n, &tier, &mut out, Some("c04-")),
+        "oracle-replay" | "oracle-replay-c04" => {
             let mut fails = vec![];
             let mut stats = BTreeMap::new();
             for c in stdin_cases() {
                 oracle_case(&c, &mut fails, &mut stats);
             }
             for f in &fails {
-                writeln!(out, "FAIL {}", f).unwrap();
+                if sub == "oracle-replay" || keep_class(f, "c04-") {
+                    writeln!(out, "FAIL {}", f).unwrap();
+                }
             }
         }
         x => panic!("unknown subcommand {}", x),
